@@ -110,6 +110,42 @@ VF_HARNESS(swap_views) {   // swap of two views: both sides exchanged element-wi
   vf_reach("swap_views");
 }
 
+
+#if DIM == 3
+// D = 3, both sides GAP-FREE (compact) with independently permuted dimension orders: the layouts a "contiguous fast path" would accept.
+// Strides are a permutation of the compact strides of the (common) extents; offsets symbolic.
+static Spec<3> permuted_compact_spec(L const* n, L memsz) {
+  Spec<3> s{}; L p = vf_range(0, 5);
+  int const order[6][3] = {{0, 1, 2}, {0, 2, 1}, {1, 0, 2}, {1, 2, 0}, {2, 0, 1}, {2, 1, 0}};   // order[p][k] = the k-th fastest dimension
+  L st = 1;
+#pragma unroll
+  for(int k = 0; k < 3; ++k) {
+#pragma unroll
+    for(int d = 0; d < 3; ++d) if(order[p][k] == d) { s.d[d].stride = st; st *= n[d]; }
+  }
+#pragma unroll
+  for(int d = 0; d < 3; ++d) { s.d[d].size = n[d]; s.d[d].first = 0; }
+  s.origin = vf_range(0, memsz - 1); vf_assume(s.origin + spec_hull(s) < memsz);
+  return s;
+}
+VF_HARNESS(swap_assign_compact_permuted) {
+  L n[3]; n[0] = vf_range(1, NB); n[1] = vf_range(1, NB); n[2] = vf_range(1, NB);
+  Pair p; p.dst = permuted_compact_spec(n, MEMSZ2); p.src = permuted_compact_spec(n, MEMSZ2);
+  auto v = view_of<D, int>(p.dst, g_dst); auto w = view_of<D, int>(p.src, g_src);
+  L form = vf_range(0, 2);
+  if(form == 0) { swap(v(), w()); } else if(form == 1) { v = w; } else { v = std::move(w); }
+  L c = vf_nondet_long(); vf_assume(0 <= c && c < MEMSZ2);
+  L i[D];
+  if(spec_designates(p.dst, c, i)) { vf_assert(g_dst[c] == 1000 + spec_addr(p.src, i), "left / destination cell holds the corresponding right / source element"); }
+  else { vf_assert(g_dst[c] == 100 + c, "cell outside the left view is untouched"); }
+  L c2 = vf_nondet_long(); vf_assume(0 <= c2 && c2 < MEMSZ2);
+  L j[D];
+  if(form == 0 && spec_designates(p.src, c2, j)) { vf_assert(g_src[c2] == 100 + spec_addr(p.dst, j), "right cell holds the left element"); }
+  else { vf_assert(g_src[c2] == 1000 + c2, "source / cell outside the right view is untouched"); }
+  vf_reach("swap_assign_compact_permuted");
+}
+#endif
+
 #if DIM == 1
 VF_HARNESS(assign_range_1d) {   // from a range / iterator pair / initializer list (size 3)
   Spec<1> s = arbitrary_spec<1>(3, FB, MEMSZ2); vf_assume(s.d[0].size == 3);
